@@ -362,6 +362,9 @@ func (e *Emitter) boxFns(t types.Type) (box, unbox string) {
 		if strings.HasPrefix(s, "S_") || strings.HasPrefix(s, "(Array") {
 			// struct/array payloads: packed through an uninterpreted sort declared before Box
 			sv := "SV_" + k
+			if isUnitType(t) {
+				sv = "unit"
+			}
 			e.packed[k] = sv
 		}
 		e.boxOrder = append(e.boxOrder, k)
@@ -382,13 +385,19 @@ func (e *Emitter) boxDecl() (string, string) {
 	cons = append(cons, "(nilbox)")
 	for _, k := range e.boxOrder {
 		s := e.boxSort[k]
-		if sv, ok := e.packed[k]; ok {
+		if sv, ok := e.packed[k]; ok && sv == "unit" {
+			cons = append(cons, fmt.Sprintf("(box_%s)", k))
+			post = append(post,
+				fmt.Sprintf("(define-fun boxp_%s ((x %s)) Box box_%s)", k, s, k),
+				fmt.Sprintf("(define-fun unboxp_%s ((b Box)) %s %s)", k, s, e.zeroValue(e.tagTy[k])))
+		} else if sv, ok := e.packed[k]; ok {
 			fmt.Fprintf(&b, "(declare-sort %s 0)\n", sv)
 			cons = append(cons, fmt.Sprintf("(box_%s (unbox_%s %s))", k, k, sv))
 			post = append(post,
 				fmt.Sprintf("(declare-fun pack_%s (%s) %s)", k, s, sv),
 				fmt.Sprintf("(declare-fun unpack_%s (%s) %s)", k, sv, s),
 				fmt.Sprintf("(assert (forall ((x %s)) (! (= (unpack_%s (pack_%s x)) x) :pattern ((pack_%s x)))))", s, k, k, k),
+				fmt.Sprintf("(assert (forall ((y %s)) (! (= (pack_%s (unpack_%s y)) y) :pattern ((unpack_%s y)))))", sv, k, k, k),
 				fmt.Sprintf("(define-fun boxp_%s ((x %s)) Box (box_%s (pack_%s x)))", k, s, k, k),
 				fmt.Sprintf("(define-fun unboxp_%s ((b Box)) %s (unpack_%s (unbox_%s b)))", k, s, k, k))
 		} else {
@@ -529,4 +538,18 @@ func (e *Emitter) preamble(initHeaps map[string]string, exact bool) string {
 		fmt.Fprintf(&b, "(declare-const %s %s)\n", n, initHeaps[n])
 	}
 	return b.String()
+}
+
+// isUnitType: a struct type with exactly one value (all fields, recursively, are unit structs).
+func isUnitType(t types.Type) bool {
+	st, ok := t.Underlying().(*types.Struct)
+	if !ok {
+		return false
+	}
+	for i := 0; i < st.NumFields(); i++ {
+		if !isUnitType(st.Field(i).Type()) {
+			return false
+		}
+	}
+	return true
 }
